@@ -24,6 +24,7 @@ RULE = (
     "(depot points, deleted set, vertices, block indexes, patch table incl. kind/settings, merged pairs, default patch, "
     "grading specification lengths); oracle at every write transition: parsed file == file of a freshly built mesh of the "
     "declaration model's normal form. non-trivial = a history that contains at least one life-cycle call before a write"
+    " Every model box has a projected side; the mesh declares two surfaces (add_geometry) and the geometry section is compared."
 )
 ASSUMPTIONS = [
     "delete(), add() and merge_patches() on an assembled mesh take effect at once (the mesh is assembled again with its vertices where they are): a write() right after them shows the block gone / added / the slave vertices duplicated",
